@@ -15,7 +15,14 @@ only = sys.argv[1:]
 names = sorted(n for n in os.listdir(SEEDED) if os.path.isdir(os.path.join(SEEDED, n)) and (not only or n in only))
 status_path = os.path.join(SEEDED, "STATUS.json")
 status = json.load(open(status_path)) if os.path.exists(status_path) else {}
-for n in names:
+import threading
+from concurrent.futures import ThreadPoolExecutor
+
+JOBS = int(os.environ.get("SEED_RECHECK_JOBS", "4"))
+lock = threading.Lock()
+
+
+def one(n: str) -> None:
     d = os.path.join(SEEDED, n)
     meta = json.load(open(os.path.join(d, "meta.json")))
     check = meta.get("check", {}).get("cmd", "").split()[1] if meta.get("check", {}).get("cmd", "").startswith("./check") else meta["property"]
@@ -28,7 +35,12 @@ for n in names:
         res = {"error": (p.stdout + p.stderr)[-300:]}
     if before is not None:
         open(os.path.join(d, "eval.json"), "w").write(before)     # keep the committed record of the first evaluation
-    status[n] = {"check": check, "detected": res.get("detected"), "concrete_input": res.get("concrete_input"), "demo_ok": res.get("demo_ok"),
-                 "patch_applies": res.get("patch_applies"), "wall_s": round(time.time() - t0, 1), "at": time.strftime("%Y-%m-%d %H:%M")}
-    print(n, status[n], flush=True)
-    json.dump(status, open(status_path, "w"), indent=1, sort_keys=True)
+    with lock:
+        status[n] = {"check": check, "detected": res.get("detected"), "concrete_input": res.get("concrete_input"), "demo_ok": res.get("demo_ok"),
+                     "patch_applies": res.get("patch_applies"), "wall_s": round(time.time() - t0, 1), "at": time.strftime("%Y-%m-%d %H:%M")}
+        print(n, status[n], flush=True)
+        json.dump(status, open(status_path, "w"), indent=1, sort_keys=True)
+
+
+with ThreadPoolExecutor(max_workers=JOBS) as ex:
+    list(ex.map(one, names))
